@@ -131,6 +131,9 @@ Definition apply_occ (a : argspec) (cur : aval) (first_list : bool) (o : occ) : 
       | KInt => match parse_int s with Some z => AInt z | None => ANone end
       | KBool => ABool (negb (String.eqb s ""))
       | KStr => AStr s
+      | KOther ty d tbl =>
+          (* whatever the argument's own type makes of the text (oracle) *)
+          match cast_other d tbl s with COk r => AStr (other_repr ty r) | _ => ANone end
       end
   end.
 
@@ -209,7 +212,7 @@ Definition intlike (s : string) : bool := match parse_int s with Some _ => true 
 Definition value_token_ok (c : ctxspec) (a : argspec) (s : string) : bool :=
   negb (String.eqb s "--")
   && negb (ctx_flag c s)
-  && match a_kind a with KInt => intlike s | _ => true end
+  && castable a s
   && (negb (a_optional a)
       || (negb (is_task_name cs s) && negb (starts_with "-" s))).
 
@@ -244,7 +247,7 @@ Definition occ_ok (c : ctxspec) (given : list nat) (in_cluster : bool) (o : occ)
       | FEq, VS s =>
           takes_value a && negb in_cluster
           && negb (ctx_flag c s)
-          && match a_kind a with KInt => intlike s | _ => true end
+          && castable a s
           && (negb (a_optional a)
               || (negb (is_task_name cs s) && negb (starts_with "-" s)
                   && match first_missing c given with None => true | Some _ => false end))
@@ -252,7 +255,7 @@ Definition occ_ok (c : ctxspec) (given : list nat) (in_cluster : bool) (o : occ)
           takes_value a && negb in_cluster && is_short_flag fl
           && negb (String.eqb s "") && negb (starts_with "=" s)
           && negb (ctx_flag c s)
-          && match a_kind a with KInt => intlike s | _ => true end
+          && castable a s
           && (negb (a_optional a)
               || (negb (is_task_name cs s) && negb (starts_with "-" s)
                   && match first_missing c given with None => true | Some _ => false end))
@@ -260,7 +263,7 @@ Definition occ_ok (c : ctxspec) (given : list nat) (in_cluster : bool) (o : occ)
           negb in_cluster && required_positional a
           && match first_missing c given with Some i => Nat.eqb i (o_arg o) | None => false end
           && negb (starts_with "-" s)
-          && match a_kind a with KInt => intlike s | _ => true end
+          && castable a s
       | _, _ => false
       end
   end.
